@@ -7,7 +7,8 @@ open Np Drv Chunks
     piecemap <c1> <c2> <n>       -> source chunk per position as the piece decomposition sees it (mirror)
     pieces <c1> <c2>             -> start:len:dst:src,...
     align <timechunks> <max>     -> padded time chunks
-    prune <sizes> <start> <stop> -> kept sizes | offset | start | stop -/
+    prune <sizes> <start> <stop> -> kept sizes | offset | start | stop
+    flagtable                    -> loadFlags of stored byte k/16 with lost bits k%16, k = 0..4095 -/
 def step (line : String) : String :=
   match line.splitOn " " with
   | ["chunkmap", sizes, n] =>
@@ -36,6 +37,11 @@ def step (line : String) : String :=
       let (k, off, st, sp) := pruneAxis sz a b
       s!"{showNatList k}|{off}|{st}|{sp}"
     | _, _, _ => "bad-op"
+  | ["flagtable"] =>
+    -- loadFlags for every stored byte and every combination of (vis, weights, weights_channel, flags) lost
+    ",".intercalate ((List.range 4096).map fun k =>
+      let b : Nat → Bool := fun i => (k / 2 ^ i) % 2 == 1
+      toString (loadFlags (UInt8.ofNat (k / 16)) (b 0) (b 1) (b 2) (b 3)).toNat)
   | _ => "bad-op"
 
 def main : IO Unit := Drv.loop step
